@@ -44,6 +44,27 @@ def run(prog, chk):
         # both on the same paths
         same = okp and okc and g.must_follow(pos[0], col) or (okp and okc and g.must_precede(col, pos[0]))
         chk.ob('R15.5', f, f.ln, okp and okc and same, '%s moves m_position and m_column by exactly one, together' % nm, key='step:' + nm)
+    # … and nothing else moves the cursor on its own: any other write of m_position in the lexer (a scanner that skips a character with
+    # `m_position++` instead of advance()) must carry the column with it — same step, on the same paths — or be the reset to the
+    # start of the input
+    nother = 0
+    for f in L.fns:
+        if f.short in ('advance', 'match') or not f.body:
+            continue
+        g = prog.cfg(f)
+        for n, l, r, op in g.writes():
+            if not SX.is_this_member(SX.strip(l), 'm_position'):
+                continue
+            nother += 1
+            r0 = SX.strip(r) if r is not None else None
+            if op == '=' and SX.is_node(r0) and r0.get('k') == 'int' and r0.get('v') == 0:
+                ok = True           # rewinding to the start (tokenize / reset)
+            else:
+                cols = [c for c, l2, r2, op2 in g.writes() if SX.is_this_member(SX.strip(l2), 'm_column') and op2 == op and SX.show(SX.strip(r2) if r2 is not None else None) == SX.show(r0)]
+                ok = bool(cols) and (g.must_follow(n, cols) or g.must_precede(cols, n))
+            chk.ob('R15.5', f, n.ln or f.ln, ok, '%s moves m_position (%s) outside advance()/match(): the column must move with it by the same step' % (f.short, op),
+                   key='raw-cursor-move:%s' % f.short)
+    chk.extra['cursor_writes_outside_advance'] = nother
     mk = fns['makeToken']
     rets = [n for n in SX.walk(mk.body) if n['k'] == 'return']
     okmk = False
